@@ -395,13 +395,11 @@ func (e *env) tamper(f fileRec, tok string) []byte {
 	case "auth":
 		switch e.h.Rng.Intn(4) {
 		case 0:
-			// the scrypt cost parameters N,r,p sit in bytes 32..56 of privParams: corrupting them can make scrypt
-			// allocate without bound before the digest check (finding F16); keep to salt / digest bytes here
+			// corrupting the scrypt cost parameters N,r,p can make scrypt allocate without bound before the digest
+			// check rejects the file (DESIGN.md F16); this stream keeps to the salt and digest bytes
+			// privParams = salt(32) | digest(32) | N(8) | r(8) | p(8): only salt and digest are touched here
 			s := []byte(crypto["privParams"].(string))
-			i := e.h.Rng.Intn(64)
-			if e.h.Rng.Intn(2) == 0 {
-				i = len(s) - 1 - e.h.Rng.Intn(64)
-			}
+			i := e.h.Rng.Intn(128)
 			if s[i] == 'a' {
 				s[i] = 'b'
 			} else {
@@ -940,6 +938,66 @@ func (e *env) audit() {
 	}
 }
 
+// scenarioC01: export every keystore, delete it, and import the file back under every kind of alteration
+// (into the same wallet); finally import all files into a fresh wallet ("any other wallet").
+func (e *env) scenarioC01() {
+	if e.priv < 0 {
+		return
+	}
+	r := e.h.Rng
+	cur := e.priv
+	for _, id := range e.ksIDs() {
+		_, out := e.opExport(id, cur)
+		e.do(fmt.Sprintf("export %d %s", id, e.ptok(cur)), out)
+		if !strings.HasPrefix(out, "file") {
+			continue
+		}
+		fno := len(e.files) - 1
+		f := e.files[fno]
+		if _, o := e.opDelete(id, cur); o == "ok" {
+			e.do(fmt.Sprintf("delete %d %s", id, e.ptok(cur)), o)
+		} else {
+			e.do(fmt.Sprintf("delete %d %s", id, e.ptok(cur)), o)
+			continue
+		}
+		tams := []string{"auth", "notjson", "auth", "remark:" + hex.EncodeToString([]byte("tampered")), "ext:" + strconv.Itoa(int(f.ext)+1),
+			"int:" + strconv.Itoa(int(f.int_)+2), "account:0", "ignored", "none"}
+		if f.ext > 0 {
+			tams = append(tams, "ext:"+strconv.Itoa(int(f.ext)-1))
+		}
+		// wrong passphrase first
+		wrong := (f.priv + 1) % 5
+		e.do(e.opImport(fno, wrong, -1, "none"))
+		for _, t := range tams[r.Intn(3):] {
+			if strings.HasPrefix(t, "account") {
+				e.freshID++
+			}
+			line, out := e.opImport(fno, f.priv, -1, t)
+			e.do(line, out)
+			if strings.HasPrefix(out, "imported") {
+				// remove what was restored (possibly under another identity) and go on with the next alteration
+				parts := strings.Fields(out)
+				rid, _ := strconv.Atoi(parts[1])
+				l2, o2 := e.opDelete(rid, cur)
+				e.do(l2, o2)
+			}
+		}
+		e.do(e.opImport(fno, f.priv, -1, "none"))
+		e.do(e.opImport(fno, f.priv, -1, "none")) // already present
+	}
+	if r.Intn(2) == 0 && len(e.files) > 0 {
+		// any other wallet
+		pub := 0
+		e.freshWallet(pub)
+		e.h.Emit("fresh "+e.ptok(pub), "ok")
+		for fno, f := range e.files {
+			if r.Intn(2) == 0 {
+				e.do(e.opImport(fno, f.priv, -1, "none"))
+			}
+		}
+	}
+}
+
 func main() {
 	focus := flag.String("focus", "", "property id the generator is biased to")
 	h := hx.New("wallet")
@@ -968,6 +1026,9 @@ func main() {
 		n := 6 + h.Rng.Intn(h.Len)
 		for i := 0; i < n; i++ {
 			e.step()
+		}
+		if e.focus == "C01" || h.Rng.Intn(6) == 0 {
+			e.scenarioC01()
 		}
 		e.audit()
 		if s < 2 {
